@@ -172,7 +172,7 @@ class NodeReset(Unit):
     resets every input exactly once and takes the step state of the given graph state"""
     name = "_AsyncNodeWrapper._reset"
     target = aw.AS + "::_AsyncNodeWrapper._reset"
-    props = ("C03", "C02")
+    props = ("C03", "C02", "C04")
 
     def configs(self):
         for state in ("STOPPED", "READY"):
